@@ -5,7 +5,7 @@ import random
 
 from harness import tlc, faultfs
 
-FORMULAS = ['NeverPartial', 'NoTempLeft', 'RaisedIsWriterError', 'RaisedKeeps', 'DryRunInert']
+FORMULAS = ['NeverPartial', 'NoTempLeft', 'RaisedIsWriterError', 'RaisedKeeps', 'FailureSurfaces', 'DryRunInert']
 CFG = '''CONSTANTS
   Writers <- {writers}
   Kind = "{kind}"
@@ -69,7 +69,10 @@ def run(out, prop, tier, seed, only_slices=None):
             variant = (i + seed) % 5 if len(wl) == 1 else (i + seed) % 3
             order = [h['w'] for h in sc['hist']]
             faults = {w: f for w, f in sc['fault'].items() if f['s'] != 'none'}
-            tr = faultfs.run(scratch, kind, wl, faults, order, sc['dest0'], sc['dir0'], sc['dry'], texts_for(wl, variant))
+            # an "error" fault is transient (first call of the site) or persistent (every call): the code calls no site again
+            # after an error, so the specification does not distinguish them - a retry loop in the code would
+            tr = faultfs.run(scratch, kind, wl, faults, order, sc['dest0'], sc['dir0'], sc['dry'], texts_for(wl, variant),
+                             persistent=((i // 2 + seed) % 2 == 1))
             tr['id'] = '%s-%d' % (label, i)
             raw[tr['id']] = (sc, tr)
             traces.append(tr)
